@@ -197,7 +197,14 @@ static void vf_run(vf_case *c) {
 }
 
 /* case-index based sharding: call once per case (or per outer-loop block) */
-static int vf_mine(void) { return (int)((vf_ctr++ + (unsigned)vf_seed) % (unsigned)vf_nshards) == vf_shard; }
+/* --stride K keeps every K-th case of the (deterministic) enumeration order: a fixed, documented sub-bound used by the
+ * sanitizer re-runs of C08, where each case costs several times more */
+static unsigned long long vf_stride = 1;
+static int vf_mine(void) {
+	unsigned long long idx = vf_ctr++;
+	if (vf_stride > 1) { if (idx % vf_stride) return 0; idx /= vf_stride; }
+	return (int)((idx + (unsigned)vf_seed) % (unsigned)vf_nshards) == vf_shard;
+}
 
 static int vf_bound_on(const char *name) {
 	if (vf_only && !strstr(name, vf_only)) return 0;
@@ -274,11 +281,15 @@ static int vf_main(int argc, char **argv) {
 		else if (!strcmp(argv[i], "--deadline") && i + 1 < argc) { vf_deadline = atof(argv[++i]); }
 		else if (!strcmp(argv[i], "--seed") && i + 1 < argc) { vf_seed = atoi(argv[++i]); }
 		else if (!strcmp(argv[i], "--only") && i + 1 < argc) { vf_only = argv[++i]; }
+		else if (!strcmp(argv[i], "--stride") && i + 1 < argc) { vf_stride = strtoull(argv[++i], NULL, 10); if (!vf_stride) vf_stride = 1; }
 		else if (!strcmp(argv[i], "--track")) { vf_track = 1; }
 		else if (!strcmp(argv[i], "--replay") && i + 1 < argc) { replay = argv[++i]; }
 		else { fprintf(stderr, "vf: unknown argument %s\n", argv[i]); return 2; }
 	}
-	signal(SIGSEGV, vf_sig); signal(SIGBUS, vf_sig); signal(SIGFPE, vf_sig); signal(SIGABRT, vf_sig);
+#ifndef VF_KEEP_SEGV_HANDLER
+	signal(SIGSEGV, vf_sig); signal(SIGBUS, vf_sig);
+#endif
+	signal(SIGFPE, vf_sig); signal(SIGABRT, vf_sig);
 	signal(SIGILL, vf_sig); signal(SIGALRM, vf_sig);
 	harness_setup();
 	if (!vf_track && !replay) alarm(VF_WD_PERIOD);
